@@ -28,7 +28,7 @@ REQUIRED = {**{f"char:{c}": 10 for c in L.ALPHABET_EXTRA}, **{f"bf-literal:{f}":
             **{f"param-literal:{f}": 3 for f in ["1", "1.", ".5", "-0.8", "+3", "20.e12", "2E-4"]},
             "models-all-published": 1, "empty-block": 10, "repeated-mother-different-body": 10, "repeated-mother-identical-body": 10,
             "tables>=4": 10, "tables>=8": 3, "line-without-daughters": 10, "photos-mixed-in-one-table": 10, "lines>=8": 3, "daughters>=5": 10,
-            "defined-param": 10, "negated-defined-param": 5, "word-param": 10, "public-api-observation": 30, "corpus-file": 20}
+            "defined-param": 10, "negated-defined-param": 5, "word-param": 10, "public-api-observation": 30, "corpus-file": 20, "second-parse-same-instance": 10, "file-constructor-same-path-rewritten": 10}
 ASSUMPTIONS = ["texts are in L_dec (DESIGN 2.1): labels are not numeric prefixes, reserved words or model-name + non-word suffix",
                "corpus files are judged only where the independent reference reader understands them (unsupported ones are counted, not judged)"]
 EXHAUSTIVE_NOTE = "every published model name appears in at least one generated decay line per run (cycled, not sampled)"
@@ -159,6 +159,32 @@ def check_text(ctx, text, exp, wit, workload, user_models=(), files=None, nontri
         ctx.violate("tables:count", f"number_of_decays {p.number_of_decays} != {len(p.list_decay_mother_names())} mothers", wit)
     if public:
         public_observation(ctx, p, exp, wit)
+    if files is None and ctx.rng.random() < 0.3:
+        # the same instance parsed again must report the same tables (re-parsing is supported, it only warns)
+        ctx.hit("second-parse-same-instance")
+        import warnings  # noqa: PLC0415
+
+        def again():
+            with warnings.catch_warnings():
+                warnings.simplefilter("ignore")
+                p.parse()
+            return snapshot.compare_tables(p, exp)
+
+        ok2, bad = ctx.guard("second-parse", wit, again)
+        for mech, msg in (bad or []):
+            ctx.violate("after-second-parse:" + mech, msg, wit)
+    if files is None and ctx.rng.random() < 0.3:
+        # the same text through the file-based constructor, always at the *same path* (rewritten for every case of this worker)
+        ctx.hit("file-constructor-same-path-rewritten")
+        d = os.path.join(os.environ.get("VMON_RUN_DIR") or core.WORK, f"c01-{os.getpid()}")
+        os.makedirs(d, exist_ok=True)
+        path = os.path.join(d, "case.dec")
+        with open(path, "w", encoding="utf-8", newline="") as fh:
+            fh.write(text)
+        ok3, res3 = ctx.guard("parse-from-file", wit, snapshot.make_parser, None, [path], user_models)
+        if ok3:
+            for mech, msg in snapshot.compare_tables(res3[0], exp):
+                ctx.violate("file-constructor:" + mech, msg, wit)
     return p
 
 
